@@ -7,7 +7,8 @@
 (* A trace (tid) is one board followed by up to six objects o \in 0..5:    *)
 (* events                                                                  *)
 (*   new      : o, mode ("plain" | "hands" | "obs"), me, deal, trump, decl *)
-(*   play     : o, seat, card, via ("by_player" | "raw")                   *)
+(*   play     : o, seat, card, via ("by_player" | "raw"); fork: made on a  *)
+(*              deep / pickled copy of the object, which itself stays      *)
 (*   setdummy : o, hand                                                    *)
 (*   avail    : o, kind ("static" | "cur" | "hand" | "own" | "dummy"),     *)
 (*              hand / seat / led  -> out                                  *)
@@ -151,10 +152,12 @@ Consume ==
                c == AllFails(checks)
                txt == "play:o=" \o s.mode \o ":exp=" \o r.res \o ":why=" \o r.why
                           \o ":got=" \o e.res \o ":fail=" \o c
-           IN IF c = "" THEN Good([cur EXCEPT ![e.o] = r.st])
+               \* fork: the call was made on a copy of the object (deepcopy / pickle);
+               \* the object itself stays where it was
+               nxt == IF "fork" \in DOMAIN e /\ e.fork THEN cur ELSE [cur EXCEPT ![e.o] = r.st]
+           IN IF c = "" THEN Good(nxt)
               ELSE IF e.res = r.res
-                   THEN Soft(e, txt, {s.mode \o "." \o x : x \in FailSet(checks)},
-                             [cur EXCEPT ![e.o] = r.st])
+                   THEN Soft(e, txt, {s.mode \o "." \o x : x \in FailSet(checks)}, nxt)
               ELSE Bad(e, txt)
         ELSE IF e.ev = "setdummy" THEN
            LET s1 == P!SetDummy(s, SetOf(e.hand))
